@@ -63,6 +63,7 @@ def cells(tier):
                         'L': 3 if tier == 'quick' else 4})
             out.append({'kind': 'loadrace', 'backend': b,
                         'offsets': 16 if tier == 'quick' else 32})
+    out.append({'kind': 'chunk', 'backend': 'disk'})
     # DictStorage on a mapping that returns copies (shelve)
     out.append({'kind': 'seq', 'backend': 'shelf', 'L': L, 'form': 'list'})
     return out
@@ -316,6 +317,52 @@ def run_loadrace(cell):
         if api.prove(len(mine) == 1, 'load-lists-wrong-ids', missing=k,
                      other=other, **info):
             api.prove(mine[0] == tss[k], 'load-stale-timestamp', **info)
+
+
+def run_chunk(cell):
+    """disk backend: the pickled envelope is exactly 1, 2 or 3 aio chunks
+    long (and one byte more / less)"""
+    import gevent
+    import pickle
+    import slimta.diskstorage as ds
+    qc.fresh_hub()
+    qc.patch_env()
+    store, sub = qc.make_storage('disk')
+    k = 1 + api.choice('chunks', 3)
+    delta = api.choice('delta', 3) - 1          # -1, 0, +1
+    env = qc.make_envelope('m0', 's@z', RC, body=b'x' * 40 + b'\r\n')
+    length = len(pickle.dumps(env, pickle.HIGHEST_PROTOCOL))
+    pad = 0
+    while (length + pad) % k:
+        pad += 1
+    env = qc.make_envelope('m0', 's@z', RC, body=b'x' * (40 + pad) + b'\r\n')
+    length = len(pickle.dumps(env, pickle.HIGHEST_PROTOCOL))
+    old = ds.AioFile.chunk_size
+    ds.AioFile.chunk_size = length // k + delta
+    info = dict(backend='disk', kind='chunk', chunks=k, delta=delta,
+                length=length)
+    state = {}
+
+    def go():
+        try:
+            qid = store.write(env, 5)
+            got, attempts = store.get(qid)
+            state['view'] = env_view(got)
+            state['attempts'] = attempts
+        except Exception as e:
+            state['exc'] = type(e).__name__ + ': ' + str(e)[:80]
+    g = gevent.spawn(go)
+    try:
+        qc.run_until_quiescent()
+    finally:
+        ds.AioFile.chunk_size = old
+    api.observe('state', sorted(state))
+    if not api.prove('exc' not in state, 'operation-raised',
+                     exc=state.get('exc'), **info):
+        return
+    if api.prove('view' in state, 'operation-never-finished', **info):
+        api.prove(state['view'] == env_view(env),
+                  'get-wrong-sender-or-content', **info)
 
 
 def classify(cell, inputs, failure):
